@@ -17,6 +17,7 @@ import time
 import warnings
 
 import numpy
+from fractions import Fraction
 
 from harness.common import Check, run_main, seed
 from harness import phonon_common as PC
@@ -333,6 +334,73 @@ def h6_fill_idempotent(chk, rng, tier):
                 chk.violation("idempotence:%s:raises" % system, "filling an already filled %s table raises %s: %s" % (system, type(ex_).__name__, ex_), dict(table=t))
 
 
+def h6_fill_idempotent_accepted(chk, rng, tier):
+    """The other tables fill_cij accepts: supplied values that contradict the relations by less than the residual tolerance.
+    'Already filled' is then the accepted output of the first call, and filling it again must change nothing either."""
+    import pandas
+    import cij.util.fill as F
+    system = "cubic"
+    name = "H6b fill(fill(table)) == fill(table) [%s, accepted table off the relations by eps on one supplied value, 1/1000 <= eps <= 1/10]" % system
+    t0 = time.time()
+    ok = True
+    try:
+        rows = FC.capture_relations(F, system)
+        basis = FC.invariant_basis(rows)
+        ctx = new_context()
+        t_rows = FC.symbolic_invariant(ctx, basis, 2)
+        eps = ctx.var("eps", lo=Fraction(1, 1000), hi=Fraction(1, 10))
+        nonzero = [k for k in FC.KEYS if any(b[k] for b in basis)]
+        t_rows[0] = dict(t_rows[0])
+        t_rows[0]["c22"] = t_rows[0]["c22"] + eps
+        df = FC.make_table(t_rows, nonzero)
+        ex = X.Explorer(max_paths=16, name="C14:H6b")
+        ex.prefer = FC.no_drop_cut
+        paths, proxy, ex = FC.run_fill(F, df, system, explorer=ex)
+        accepted = [p for p in paths if p.exception is None]
+        chk.witness("H6b: the perturbed table is accepted", "sat" if accepted else "unsat")
+        for p in accepted:
+            with X.path_assumptions(p):
+                once = p.result
+                ex2 = X.Explorer(max_paths=16, name="C14:H6b2")
+                ex2.prefer = FC.no_drop_cut
+                paths2, _, _ = FC.run_fill(F, once.copy(), system, explorer=ex2)
+                for p2 in paths2:
+                    if p2.exception is not None:
+                        ok = False
+                        continue
+                    with X.path_assumptions(p2):
+                        twice = p2.result
+                        ok = ok and sorted(once.columns) == sorted(twice.columns)
+                        for c in once.columns:
+                            ok = ok and arrays_equal(once[c].to_numpy(dtype=object), twice[c].to_numpy(dtype=object), "C14:H6b")
+                            if not ok:
+                                break
+    except (SymError, X.PathBudgetExceeded) as e:
+        chk.inconclusive(name, str(e))
+        return
+    chk.obligation(name, "unsat" if ok else "sat", seconds=round(time.time() - t0, 2), kind="idempotence")
+    if not ok:
+        t = {"V": [100.0, 95.0]}
+        for k in ("c11", "c22", "c33"):
+            t[k] = [200.0, 210.0]
+        for k in ("c12", "c13", "c23"):
+            t[k] = [100.0, 105.0]
+        for k in ("c44", "c55", "c66"):
+            t[k] = [50.0, 55.0]
+        t["c22"] = [200.05, 210.0]
+        with warnings.catch_warnings():
+            warnings.simplefilter("ignore")
+            a = F.fill_cij(pandas.DataFrame(t), system)
+            b = F.fill_cij(a.copy(), system)
+        d = max(numpy.abs(a[c].to_numpy(dtype=float) - b[c].to_numpy(dtype=float)).max() for c in a.columns)
+        if sorted(a.columns) != sorted(b.columns) or d > 1e-9 * 200:
+            chk.violation("idempotence:accepted-inconsistent", "filling an already filled %s table changes it when the original table was accepted with a "
+                          "misfit below the residual tolerance (c22 = c11 + 0.05 at one volume): the relations are soft least-squares rows, so "
+                          "each further fill moves c11, c22, c33 again (first to second fill: %.3g)" % (system, d), dict(table=t))
+        else:
+            chk.harness_error("C14 H6b did not reproduce")
+
+
 def main():
     tier = os.environ.get("VERIF_TIER", "quick")
     if len(sys.argv) > 1:
@@ -347,6 +415,7 @@ def main():
     h3_h4_interfaces(chk, rng, tier)
     C7.history_obligation(chk, cc, ["a", "b"], rng)           # H5
     h6_fill_idempotent(chk, rng, tier)
+    h6_fill_idempotent_accepted(chk, rng, tier)
     chk.witness("histories executed", "sat" if len(chk.obligations) >= 5 else "unsat")
     chk.bound(histories="2-3 reads per quantity, 3 access orders, 3 write_output calls, 2 calculators, fill applied twice",
               shapes="nq=2, np=3, nT=2, nV=1-2; 10 stiffness components; 2-7 crystal systems")
